@@ -301,6 +301,67 @@ def r5(ctx):
                 ok = acc == [("closingTagClass", True)]
             ctx.check("%s.decode:closing-tag-checked@%d" % (cname, sum(1 for q in pops if isinstance(enclosing_stmt(q), ast.Assign) and q.lineno <= pop.lineno)), ok, where(m, pop),
                       "after a context-tagged group the next tag must be the closing tag of the same number, anything else must be refused")
+    # context-tagged atomics: the tag handed to the primitive's constructor must come from tag.context_to_app(<app tag of the class>)
+    # (the conversion owns the BOOLEAN special case; relabelling the tag by hand decodes False as True)
+    for cname in ("Sequence", "Choice"):
+        c = prog.cls("constructeddata", cname)
+        dec = c.methods["decode"]
+        ev2 = Evaluator(prog, c.module, c)
+        loops2 = [l for l in walk_shallow(dec) if isinstance(l, ast.For) and norm(l.iter).endswith("Elements")]
+        lp2 = max(loops2, key=lambda l: len(list(ast.walk(l))))
+        ctors = [x for x in calls_in(lp2) if norm(x.func) == "element.klass" and len(x.args) == 1 and isinstance(x.args[0], ast.Name)]
+        nctx = 0
+        for p in body_paths(lp2.body):
+            if p.term == "raise" or not consistent(p.conds()):
+                continue
+            nodes = path_nodes(p)
+            mk = [n for n in nodes if isinstance(n, ast.Call) and n in ctors]
+            if not mk:
+                continue
+            ctxpath = any(norm(t) == "element.context is not None" and pol for t, pol in p.conds()) and not any(norm(t) == "element.context is not None" and not pol for t, pol in p.conds())
+            is_any_atomic_only = any("AnyAtomic" in norm(t) and "Atomic," not in norm(t) and pol for t, pol in p.conds())
+            if not ctxpath:
+                continue
+            nctx += 1
+            var = mk[0].args[0].id
+            i = nodes.index(mk[0])
+            conv = [n for n in nodes[:i] if isinstance(n, ast.Assign) and norm(n.targets[0]) == var and isinstance(n.value, ast.Call)
+                    and isinstance(n.value.func, ast.Attribute) and n.value.func.attr == "context_to_app"]
+            ok = len(conv) == 1 and norm(conv[0].value.func.value) == var and len(conv[0].value.args) == 1 and norm(conv[0].value.args[0]) == "element.klass._app_tag"
+            ctx.check("%s.decode:context-to-app" % cname, ok, where(c.module, mk[0]),
+                      "a context-tagged primitive must be converted with tag.context_to_app(element.klass._app_tag) before it is decoded (BOOLEAN keeps its value in the data octet, not in LVT)")
+        if nctx == 0:
+            raise ShapeError("%s.decode: no context-tagged atomic path found" % cname)
+    # end of data / closing tag: decision table of Sequence.decode
+    c = prog.cls("constructeddata", "Sequence")
+    dec = c.methods["decode"]
+    evs = Evaluator(prog, c.module, c)
+    lp3 = max([l for l in walk_shallow(dec) if isinstance(l, ast.For) and norm(l.iter).endswith("Elements")], key=lambda l: len(list(ast.walk(l))))
+    table = {}
+    for situation in ("end", "closing"):
+        for optional in (True, False):
+            for listk in (True, False):
+                env = {"tag is None": situation == "end", "tag": None if situation == "end" else True, "tag.tagClass": 3, "element.optional": optional,
+                       "element.klass in _sequence_of_classes": listk, "element.klass in _list_of_classes": False}
+                outs = set()
+                for p in body_paths(lp3.body):
+                    if not consistent(p.conds()) or not feasible(p, evs, env):
+                        continue
+                    nodes = path_nodes(p)
+                    if p.term == "raise":
+                        r = [n for n in nodes if isinstance(n, ast.Raise)]
+                        outs.add("raise:" + (norm(r[-1].exc.func) if r and isinstance(r[-1].exc, ast.Call) else "?"))
+                    else:
+                        sa = [n for n in nodes if isinstance(n, ast.Call) and norm(n.func) == "setattr"]
+                        pops = [n for n in nodes if isinstance(n, ast.Call) and norm(n.func) == "taglist.Pop"]
+                        outs.add("set:" + (norm(sa[-1].args[2]) if sa else "?") + ("+pop" if pops else ""))
+                table[(situation, optional, listk)] = outs
+    want = {("end", True, True): {"set:None"}, ("end", True, False): {"set:None"}, ("end", False, True): {"set:[]"}, ("end", False, False): {"raise:MissingRequiredParameter"},
+            ("closing", True, True): {"set:None"}, ("closing", True, False): {"set:None"},
+            ("closing", False, True): {"raise:MissingRequiredParameter"}, ("closing", False, False): {"raise:MissingRequiredParameter"}}
+    for k, v in want.items():
+        ctx.check("Sequence.decode:end-of-data[%s,optional=%s,list=%s]" % k, table.get(k) == v, where(c.module, dec),
+                  "at %s of the data an %s %s element must give %s (found %s)" % ("the end" if k[0] == "end" else "a closing tag", "optional" if k[1] else "required", "list" if k[2] else "non-list", sorted(v), sorted(table.get(k) or [])))
     # required / optional decisions on both sides of Sequence
     c = prog.cls("constructeddata", "Sequence")
     enc, dec = c.methods["encode"], c.methods["decode"]
